@@ -278,7 +278,31 @@ fn twin_case(rng: &mut Rng, case: u64, out: &mut CaseOut, len: usize) {
     let stream = "history-twin";
     let f32_ = case % 3 == 0;
     let seq = gen_sequence(rng, if f32_ { 32 } else { 64 }, len, case % 5 == 0, f32_);
-    let r = if f32_ { run_sequence::<f32>(&seq, true) } else { run_sequence::<f64>(&seq, true) };
+    let run = |fresh: bool| if f32_ { run_sequence::<f32>(&seq, fresh) } else { run_sequence::<f64>(&seq, fresh) };
+    let r = if seq.spec.par {
+        // a parallel problem: the whole history runs inside an explicit pool, and once more inside a
+        // pool of another size - the size of the pool is not part of the parameters, so every
+        // observed bit must agree
+        let sizes = [1usize, 2, 3, 5, 16];
+        let t1 = sizes[(case % 5) as usize];
+        let t2 = sizes[((case / 5 + 1 + case % 5) % 5) as usize];
+        let p1 = rayon::ThreadPoolBuilder::new().num_threads(t1).build().unwrap();
+        let r1 = p1.install(|| run(true));
+        if t2 != t1 {
+            let p2 = rayon::ThreadPoolBuilder::new().num_threads(t2).build().unwrap();
+            let r2 = p2.install(|| run(false));
+            out.evals += r2.observations;
+            out.count("parallel_histories_repeated_in_a_pool_of_another_size");
+            if r1.bits != r2.bits {
+                let idx = (0..r1.bits.len().min(r2.bits.len())).find(|i| r1.bits[*i] != r2.bits[*i]);
+                violation(out, stream, case, format!("outputs of a parallel problem depend on the size of the thread pool ({t1} vs {t2} threads; first differing output word {idx:?})"), json!({"problem": seq.spec.to_json(), "ops": format!("{:?}", seq.ops)}));
+                return;
+            }
+        }
+        r1
+    } else {
+        run(true)
+    };
     out.evals += r.observations;
     if r.states_with_values > 0 {
         out.nontrivial.push(crate::rng::hash_u64s([seq.spec.hash(), crate::rng::hash_u64s(r.bits.iter().cloned().take(64))]));
@@ -445,7 +469,7 @@ fn run_tool(ctx: &Ctx, name: &str, cmd: &mut std::process::Command, timeout_s: u
 }
 
 pub fn run(ctx: &Ctx) {
-    ctx.rule("history-twin: one long-lived problem driven through 12 (quick) / 40 (thorough) random operations (wide updates, repeated alpha, non-finite/extreme alpha that empty the cache, injected model failures, repeated queries, failed derivative calls, heap churn, complete short fits after which the problem inside the fit result carries on) and compared bitwise after every update with a freshly built problem at the reported parameters; repeated queries identical. Shapes: zoo models and table models with M<=8, P<=10, N<=64, S<=4 including dead parameters (identically zero derivative matrices) and zero derivative columns. clones: a problem over a Clone-able hand-written model and its clone are moved to different parameters and queried in interleaved order, each compared bitwise with a fresh problem. poison: the same sequences in child processes under allocator poison modes 0xAA / 0x55 / random, outputs bit-identical across modes and free of poison patterns. thorough adds valgrind memcheck over the release build and Miri over small shapes, with a data-dependent branch on every output element. non-trivial = the sequence produced at least one state with values; distinct = hash(problem, first outputs)");
+    ctx.rule("history-twin: one long-lived problem driven through 12 (quick) / 40 (thorough) random operations (wide updates, repeated alpha, non-finite/extreme alpha that empty the cache, injected model failures, repeated queries, failed derivative calls, heap churn, complete short fits after which the problem inside the fit result carries on; histories of parallel problems run inside explicit pools of 1/2/3/5/16 threads and are repeated in a pool of another size with bit-identical outputs) and compared bitwise after every update with a freshly built problem at the reported parameters; repeated queries identical. Shapes: zoo models and table models with M<=8, P<=10, N<=64, S<=4 including dead parameters (identically zero derivative matrices) and zero derivative columns. clones: a problem over a Clone-able hand-written model and its clone are moved to different parameters and queried in interleaved order, each compared bitwise with a fresh problem. poison: the same sequences in child processes under allocator poison modes 0xAA / 0x55 / random, outputs bit-identical across modes and free of poison patterns. thorough adds valgrind memcheck over the release build and Miri over small shapes, with a data-dependent branch on every output element. non-trivial = the sequence produced at least one state with values; distinct = hash(problem, first outputs)");
     ctx.assume("bitwise equality is demanded because the property is about identity/determinism of one deterministic computation on the same stored data");
     let t = ctx.tier;
     let len = t.pick(12, 40);
